@@ -133,6 +133,8 @@ def federations(thorough):
         F.append(('two:%s|%s' % (a, b), [{'kind': 'single', 'entities': [E(a)]}, {'kind': 'single', 'entities': [E(b)]}]))
     F.append(('dup:idpA|idpA-v1', [{'kind': 'single', 'entities': [E('idpA')]}, {'kind': 'single', 'entities': [E('idpA', 1)]}]))
     F.append(('dup:idpA-v1|idpA', [{'kind': 'single', 'entities': [E('idpA', 1)]}, {'kind': 'single', 'entities': [E('idpA')]}]))
+    F.append(('dup+extra:idpA|idpA-v1+spX', [{'kind': 'single', 'entities': [E('idpA')]}, {'kind': 'multi', 'entities': [E('idpA', 1), E('spX')]}]))
+    F.append(('dup+extra:idpA-v1+aa|idpA', [{'kind': 'multi', 'entities': [E('idpA', 1), E('aa')]}, {'kind': 'single', 'entities': [E('idpA')]}]))
     F.append(('dup-in-doc:idpA+idpA-v1', [{'kind': 'multi', 'entities': [E('idpA'), E('idpA', 1)]}]))
     F.append(('known-elsewhere:spX|idpA+aa', [{'kind': 'single', 'entities': [E('spX')]}, {'kind': 'multi', 'entities': [E('idpA'), E('aa')]}]))
     F.append(('expired-doc-then-good', [{'kind': 'multi', 'valid_until': 'past', 'entities': [E('idpA', 1)]}, {'kind': 'single', 'entities': [E('idpA')]}]))
@@ -246,7 +248,13 @@ def evaluate(fed):
         mds, load_err = build_store(docs)
     except Exception as e:
         return name, 0, [('load-raised', type(e).__name__, None)]
-    for eid in ALL_IDS:
+    compat = {}     # (pass, eid) -> set of candidate indexes every data answer so far is compatible with
+
+    def narrow(pas, eid, ok_idx):
+        k = (pas, eid)
+        compat[k] = compat.get(k, set(range(8))) & set(ok_idx)
+
+    for pas, eid in [(0, e) for e in ALL_IDS] + [(1, e) for e in reversed(ALL_IDS)]:
         cands = served_candidates(docs, eid)
         for typ, svc in QUERIES:
             for b in BINDINGS:
@@ -271,6 +279,8 @@ def evaluate(fed):
                 if got[0] == 'data':
                     if got[1] and got[1] not in [x for x in exps if x]:
                         bad.append(('endpoints-differ-from-declared', q, got[1][:3]))
+                    elif got[1]:
+                        narrow(pas, eid, [i for i, x in enumerate(exps) if x == got[1]])
                     continue
                 # no data returned: fine unless some candidate declares endpoints and none of the candidates is empty
                 declares = [x for x in exps if x]
@@ -310,6 +320,8 @@ def evaluate(fed):
                 norm = sorted(''.join(x.split()) for x in got)
                 if norm not in okset:
                     bad.append(('certs-differ-from-declared', [eid, descr, use], len(got)))
+                elif norm:
+                    narrow(pas, eid, [i for i, x in enumerate(okset) if x == norm])
         # categories and attribute requirements
         n += 2
         try:
@@ -333,6 +345,9 @@ def evaluate(fed):
                 want.append((sorted(x for x, r in rq if r), sorted(x for x, r in rq if not r)))
             if (got[0] or got[1]) and got not in want:
                 bad.append(('attribute-requirement-differs', [eid], got))
+    for (pas, eid), ok in compat.items():
+        if not ok:
+            bad.append(('answers-mixed-from-different-versions-of-the-entity', [eid, 'pass-%d' % pas], None))
     # provider listings
     n += 2
     try:
